@@ -33,6 +33,26 @@ CHECKS = {
    "Complete sweep of the 256 InSim version values x gate on/off/default x both implementations x both modes inside short random histories, plus seeded histories with VER frames anywhere; per-frame comparison against the model's gate decision.",
    "Trusted: the version byte is read from the reference decode; after a correct rejection nothing further is demanded.",
    "deterministic simulation: exhaustive version-value sweep + seeded histories against the reference model"),
+ "C04": ("fault_enumeration", "7/C04",
+   "Three completely enumerated single-fault spaces (every (size byte, type byte) header x both modes x two fills; every byte position of one frame per packet kind x substitute values (all 256 in the thorough tier); every truncation point of those frames followed by valid frames) plus seeded multi-fault sessions, delivered in scripted segments into one long-lived receive buffer; the property's invariants (no panic, need-more leaves the buffer untouched, exactly the announced frame removed, framing error for impossible lengths, result independent of following bytes) are checked after every decoder call, and the same streams run through both real connections.",
+   "'For all byte strings' is sampled apart from the enumerated sub-spaces. Built with overflow-checks and debug-assertions on. Trusted: catch_unwind boundary, hand-written invariant checker.",
+   "fault enumeration over header/byte/truncation spaces + seeded corruption sessions, invariants after every decoder call"),
+ "C08": ("exploration", "7/C08, 4.2",
+   "Real blocking and tokio UdpStream adaptors inside the real Framed over kernel loopback sockets driven in lock-step from one thread: seeded datagram sequences (1..n frames per datagram, 4..1020 bytes, fixed-shape or mixed, peer-side loss/duplication/reordering) up to ~10x the receive buffer; each read must return the model's next frame, each keep-alive and each write must reach the peer as exactly one datagram.",
+   "Loopback kernel sockets are a real component: order-preserving and lossless at <= 8 datagrams in flight; real time with a 3 s guard per call. Honest scripting over a real pipe, not full simulation (DESIGN 4.2).",
+   "seeded lock-step scripting of real adaptors over loopback (datagram loss/dup/reorder applied by the peer script) against the sequential model"),
+ "C17": ("fault_enumeration", "7/C17, 4.3",
+   "Generated canonical PTH/SMX images driven through an in-memory faulty disk: every truncation point of small files (structural + sampled for larger, plus the shipped sample files), short reads/EINTR/EIO, saves with short writes/EINTR/ENOSPC, crash after k durable bytes with prefix / zero-filled / stale-tail survivors re-parsed, byzantine count fields and random bytes under a counting allocator, and real temp files for from_file/from_pathbuf.",
+   "The library has no durability protocol: crash = writer dies after k accepted bytes. Allocation failure not injected, only size bounded (64 x input + 64 KiB). Image generator encodes the on-disk formats independently of the library.",
+   "crash-point / truncation enumeration + seeded disk-fault scripts (short, EINTR, EIO, ENOSPC, torn tails) with round-trip and rejection oracles"),
+ "C18": ("exploration", "7/C18",
+   "Seeded builder call sequences (0..40 calls, all setters, overriding, clearing, tcp/udp with and without local address) against a last-writer-wins model, field by field; complete sweep of each single-flag setter from each of the 2^10 flag states; a third of the cases run Framed::handshake over the simulated link with short writes/Pending and compare the peer's bytes; ~1% run the real connect_blocking/connect_async against loopback TCP/UDP peers and require the ISI as first and only frame.",
+   "Builder->Isi is a pure function: the simulator contributes configuration swarm and decides only the I/O half. Relay connect paths are unreachable offline. UDP 'only frame' = no second datagram within 30 ms.",
+   "configuration exploration against a reference model + simulated handshake under write faults + real connect over loopback"),
+ "C20": ("exploration", "7/C20, 4.2",
+   "Real WebsocketStream inside the real tokio Framed against a scripted tokio-tungstenite server endpoint in the same current-thread runtime over a loopback TCP pair: seeded partitions of the frame stream into binary messages (one per message, several, split anywhere, > 1020 and > 6120 bytes, every message starting inside a frame), interleaved text/ping/pong/empty messages, writes, close handshake or abrupt drop; reads must equal the model on the concatenated payloads, writes/keep-alive replies must arrive as exactly one binary message.",
+   "Loopback TCP and tungstenite's protocol engine are real components; real time with a 3 s guard per call; HTTP upgrade to isrelay.lfs.net is bypassed with from_raw_socket.",
+   "seeded lock-step scripting of the real adaptor against a scripted WebSocket server, sequential model on concatenated binary payloads"),
  "C19": ("exploration", "7/C19, 4.1",
    "Hand-polled tokio read futures dropped at scripted poll counts (0..16) any number of times per session, with Pending/short writes on both halves; differential oracle against the same session read uninterrupted through the same real code, plus whole-frame check of the captured outgoing bytes.",
    "Trusted: hand-rolled executor (poll_fn, one poll per step) on a paused current-thread runtime; no transport errors in this workload so that differences are attributable to cancellation.",
